@@ -1,10 +1,10 @@
-\* thorough: base 4, 4 levels: all 65536 (min,max)
+\* thorough: base 2, 6 levels (longer carry chains): all 4096 (min,max)
 CONSTANTS
-  B = 4
-  L = 4
+  B = 2
+  L = 6
   G = 3
   ShiftStart = 32
-  FE = 2
+  FE = 1
 SPECIFICATION SplitSpec
 CHECK_DEADLOCK FALSE
 INVARIANTS TypeOK LoopInv Disjoint ExactCover Chain SameAsSplit Bounded MatchIff ChainSound EnumCountOK EnumLinear
